@@ -22,7 +22,8 @@
 (***************************************************************************)
 EXTENDS Naturals, Integers, FiniteSets, Sequences, TLC, Json
 
-CONSTANTS MaxI, MaxN, MaxC, MaxT, MaxSteps
+CONSTANTS MaxI, MaxN, MaxC, MaxT, MaxSteps,
+          MinN, MinC    \* lower bounds (1 everywhere except in the wide simulation)
 
 Variant == "remainder"
 VARIABLES cfg,      \* [I, N, C]: inputs, nodes, cores per node (fixed per behaviour)
@@ -60,7 +61,7 @@ Total(i) == LET S == { t \in Tasks : InputOf(Cur, t) = i }
 Totals == [i \in 0..(cfg.I - 1) |-> Total(i)]
 
 Init ==
-  /\ cfg \in [I : 1..MaxI, N : 1..MaxN, C : 1..MaxC]
+  /\ cfg \in [I : 1..MaxI, N : MinN..MaxN, C : MinC..MaxC]
   /\ T \in 1..MaxT
   /\ Pre([I |-> cfg.I, N |-> cfg.N, C |-> cfg.C, T |-> T])
   /\ files = [t \in 0..(cfg.N * cfg.C - 1) |-> Absent]
